@@ -46,7 +46,12 @@ PROPS = {
             "modes": {"quick": tb_modes()["quick"] + [{"mode": "conc", "args": ["-n", 0, "-actions", 0, "-sm", 0, "-topups", 6, "-windows", 60], "replayable": False}],
                       "thorough": tb_modes()["thorough"] + [{"mode": "conc", "args": ["-n", 0, "-actions", 0, "-sm", 0, "-topups", 200, "-windows", 6000, "-workers", 16], "replayable": False}],
                       "search": tb_modes()["search"] + [{"mode": "conc", "args": ["-n", 0, "-actions", 0, "-sm", 0, "-topups", 40, "-windows", 1200, "-workers", 16], "replayable": False}]}},
-    "C02": {**tb_prop(["C02."]), "layers": ["tb", "cc"], "modes": win_modes()},
+    # (round 7: "every action accepted for entry i was submitted by that player" is judged on real hands — hand mode, probes by
+    # strangers, bystanders and players of earlier hands — as well)
+    "C02": {**tb_prop(["C02."]), "layers": ["tb", "cc", "hd"],
+            "modes": {"quick": win_modes()["quick"] + [{"mode": "hand", "args": ["-n", 32, "-hands", 3], "timeout": 900}],
+                      "thorough": win_modes()["thorough"] + [{"mode": "hand", "args": ["-n", 1200, "-hands", 4, "-workers", 16], "timeout": 3000}],
+                      "search": win_modes()["search"] + [{"mode": "hand", "args": ["-n", 300, "-hands", 3, "-workers", 16], "timeout": 1500}]}},
     "C03": {**tb_prop(["C03."]), "layers": ["tb", "sm", "cc"],
             "modes": {"quick": win_modes()["quick"] + [{"mode": "sm", "args": ["-n", 2000]}],
                       "thorough": win_modes()["thorough"] + [{"mode": "sm", "args": ["-n", 100000, "-enum", 4, "-enumseats", 3]}],
